@@ -1,7 +1,8 @@
 /-
   C18 — `qecsim.models.generic.FileErrorModel` (and its `_JSONLines` reader).
   `json.loads` is external: every non-comment line comes with the token the harness' `json.loads`
-  produced for it.  Comment / blank detection (`^\s*(//.*)?$`) is modelled on the raw ASCII text.
+  produced for it.  Comment / blank detection (`^\s*(//.*)?$`, Unicode `\s`) and the splitting of the file text
+  into lines (universal newlines) are modelled on the raw text (code points).
 -/
 import QecVerif.Model.Pauli
 namespace Qec.FileEM
@@ -26,7 +27,28 @@ structure Line where
   tok : Tok                -- token for non-comment lines (ignored for comment/blank lines)
   deriving Repr
 
-def isSpace (c : Char) : Bool := c == ' ' || c == '\t' || c == '\r' || c == '\x0b' || c == '\x0c' || c == '\n'
+/-- `\s` of a Python `str` pattern: the `str.isspace` code points (ASCII blanks, FS/GS/RS/US, NEL, NBSP and the
+    Unicode space / line / paragraph separators) -/
+def isSpace (c : Char) : Bool :=
+  let n := c.toNat
+  (0x09 ≤ n && n ≤ 0x0d) || (0x1c ≤ n && n ≤ 0x20) || n == 0x85 || n == 0xa0 || n == 0x1680 ||
+  (0x2000 ≤ n && n ≤ 0x200a) || n == 0x2028 || n == 0x2029 || n == 0x202f || n == 0x205f || n == 0x3000
+
+/-- the lines `for line in open(filename)` yields (text mode, universal newlines), without their terminator:
+    a line ends at `\n`, `\r\n` or a lone `\r` and at nothing else (form feed, vertical tab, FS/GS/RS, NEL,
+    U+2028, U+2029 are ordinary characters of a line); text after the last terminator is a last line -/
+def splitLinesAux : List Char → List Char → List (List Char)
+  | cur, [] => if cur.isEmpty then [] else [cur.reverse]
+  | cur, c :: t =>
+    if c == '\n' then cur.reverse :: splitLinesAux [] t
+    else if c == '\r' then
+      match t with
+      | c' :: t' => if c' == '\n' then cur.reverse :: splitLinesAux [] t' else cur.reverse :: splitLinesAux [] (c' :: t')
+      | [] => [cur.reverse]
+    else splitLinesAux (c :: cur) t
+termination_by _ l => l.length
+
+def splitLines (text : List Char) : List (List Char) := splitLinesAux [] text
 
 /-- `^\s*(//.*)?$` on a line without its newline (`.` does not match a newline; none is present) -/
 def isCommentOrBlank (raw : List Char) : Bool :=
